@@ -1596,7 +1596,19 @@ service Svc { Req M(1: Req req) }
 			}
 		}
 		put(tokPlace, "token", tok, true)
+		tokReq := tok // what a lookup of "token" in the request delivers
 		put(ridPlace, "rid", strconv.FormatInt(rid, 10), false)
+		// the same name in a second place with another value: the places are searched in a fixed order
+		// (path parameter, query, header, cookie, body root) and the first one that has a value supplies it
+		order := map[string]int{"param": 0, "query": 1, "header": 2, "cookie": 3, "body": 4}
+		if second := place(); tokPlace != "none" && second != "none" && second != tokPlace && cs.R.Bool() {
+			other := "second-" + tok
+			put(second, "token", other, true)
+			if order[second] < order[tokPlace] {
+				tokReq = other
+			}
+			cs.Cover("traceback_subdoc_name_in_two_places")
+		}
 		q.Set("plain", "never-used") // not required: a sub-document's other members are not traced back
 		if !viaHeader {
 			q.Set("qin", text)
@@ -1630,7 +1642,7 @@ service Svc { Req M(1: Req req) }
 		if tokInText {
 			inner.Fs = append(inner.Fs, tref.Field{ID: 1, V: tref.Str("inner-" + tok)})
 		} else if o.TracebackRequredOrRootFields && tokPlace != "none" {
-			inner.Fs = append(inner.Fs, tref.Field{ID: 1, V: tref.Str(tok)})
+			inner.Fs = append(inner.Fs, tref.Field{ID: 1, V: tref.Str(tokReq)})
 		} else if o.WriteRequireField {
 			inner.Fs = append(inner.Fs, tref.Field{ID: 1, V: tref.Str("")})
 		} else {
